@@ -217,6 +217,14 @@ class MGen(object):
             if w:
                 # (w := ...) in the element: binds in the scope the comprehension is written in, if the comprehension runs
                 c['walrus'] = [self.bound(w), self.site()]
+        elif kind != 'class' and self.rng.random() < 0.25:
+            # (f := lambda: ...) in the element: a function written inside the comprehension, called later - it sees the comprehension's
+            # variable and everything the enclosing scope has bound BY THEN
+            fn = self.rng.choice(FNAMES)
+            self.seen.append({t})
+            c['wlam'] = {'name': fn, 'site': self.site(), 'atoms': self.atoms(1, 2)}
+            self.seen.pop()
+            self.bound(fn)
         return c
 
     # ---- shape families: deep / rare constellations the random grammar reaches too seldom ---------------------------
@@ -339,6 +347,16 @@ class MGen(object):
             else:
                 loop = {'k': 'for', 'name': self.bound(v), 'site': self.site(), 'iter': [], 'body': [inner, self._read(v)]}
                 body += [self._def('f1', [], [loop]), self._call('f1')]
+        elif rng.random() < 0.4:
+            # a lambda written inside a comprehension and called later reads what the enclosing scope binds only afterwards
+            comp = {'k': 'comp', 'form': rng.choice(['list', 'set', 'dict', 'gen']), 'name': w, 'site': self.site(),
+                    'iter': [[w, self.rid()]], 'cond': [], 'elt': [[w, self.rid()]], 'walrus': None,
+                    'wlam': {'name': self.bound('f2'), 'site': self.site(), 'atoms': [[v, self.rid()], [w, self.rid()]]}}
+            inner = [self._assign(w), comp, self._assign(v), self._call('f2')]
+            if rng.random() < 0.5:
+                body = [self._def('f1', [], inner), self._call('f1')]
+            else:
+                body = inner
         else:
             comp = {'k': 'comp', 'form': rng.choice(['list', 'set', 'dict', 'gen']), 'name': v, 'site': self.site(),
                     'iter': [[v, self.rid()]], 'cond': [[w, self.rid()]] if rng.random() < 0.5 else [], 'elt': [[v, self.rid()], [w, self.rid()]]}
@@ -372,6 +390,8 @@ def own_bound(body):
             out |= {n for n, _ in s['names']}
         elif k == 'comp' and s.get('walrus'):
             out.add(s['walrus'][0])
+        elif k == 'comp' and s.get('wlam'):
+            out.add(s['wlam']['name'])
         elif k == 'for':
             out.add(s['name'])
             out |= own_bound(s['body'])
@@ -561,6 +581,13 @@ def render(body):
             if s.get('walrus'):
                 head += '_vo.e((%s := _vo.b(%d)), ' % (s['walrus'][0], s['walrus'][1])
                 text = head + reads(s['elt'], line, len(head)) + ')'
+            elif s.get('wlam'):
+                wl = s['wlam']
+                head += '_vo.e((%s := _vo.f(%d, lambda: ' % (wl['name'], wl['site'])
+                head += reads(wl['atoms'], line, len(head)) + ')), '
+                R.def_line[line] = wl['site']
+                R.params[wl['site']] = []
+                text = head + reads(s['elt'], line, len(head)) + ')'
             else:
                 text = head + reads(s['elt'], line, len(head))
             text += ' for %s in ' % s['name']
@@ -669,6 +696,11 @@ def reduce_program(body):
             ids = rd_nodes(s['iter'], o)
             sc = new_scope(kind='comp', parent=o, params=[{'n': s['name'], 's': s['site']}])
             wb = [new(k='wbind', n=s['walrus'][0], s=s['walrus'][1], o=sc)] if s.get('walrus') else []
+            if s.get('wlam'):
+                wl = s['wlam']
+                lsc = new_scope(kind='lambda', parent=sc, site=wl['site'], params=[])
+                scopes[lsc]['root'] = seq(rd_nodes(wl['atoms'], lsc), lsc)
+                wb = [new(k='wdef', n=wl['name'], s=wl['site'], sc=lsc, o=sc)]
             scopes[sc]['root'] = seq(rd_nodes(s['cond'], sc) + wb + rd_nodes(s['elt'], sc), sc)
             return ids + [new(k='comp', sc=sc, o=o)]
         raise AssertionError(k)
@@ -858,6 +890,10 @@ def mentions(body):
             out |= {n for n, _ in s['names']}
         if s.get('walrus'):
             out.add(s['walrus'][0])
+        if s.get('wlam'):
+            out.add(s['wlam']['name'])
+            for a in s['wlam']['atoms']:
+                out.add(a[0])
         for p in s.get('params') or []:
             out.add(p[1])
             for a in p[3] + p[4]:
@@ -999,6 +1035,8 @@ def site_positions(body, source):
             take(ln, s['name'], 'name', s['site'])
             if s.get('walrus'):
                 take(ln, s['walrus'][0], 'name', s['walrus'][1])
+            if s.get('wlam'):
+                take(ln, s['wlam']['name'], 'name', s['wlam']['site'])
     blk(body)
     return pos, names
 
